@@ -40,6 +40,28 @@ def run(tier, seed, replay):
                 image = '\n'.join('image file ' + p for p in paths)
             except ValueError:
                 image = None
+        if i % 7 == 6:
+            # a virtual size that is not a multiple of the block size (top image over a backing image): whatever the
+            # library does with the last partial block (known finding F32 is about its data), every request it sends
+            # must still be block aligned - COW of the last, partial cluster included
+            import foreign, qimg
+            cbx = rng.choice([12, 13, 16])
+            csx = 1 << cbx
+            ncl = rng.choice([3, 5])
+            sizex = ncl * csx + 4096 + rng.choice([512, 1536, 2560])
+            bclusters = {gc: ('data', foreign.cluster_bytes(rng, csx, 'blocks')) for gc in range(ncl + 1)}
+            back = qimg.ImageDesc(version=3, cluster_bits=cbx, refcount_order=4, size=(ncl + 1) * csx, clusters=bclusters)
+            topd = qimg.ImageDesc(version=3, cluster_bits=cbx, refcount_order=4, size=sizex, clusters={}, backing_file='back.img')
+            try:
+                paths, _ = foreign.write_images(d, cid, [topd, back])
+                bsb = rng.choice([10, 12, 12])
+                g = hist.Geom(cbx, 4, sizex, bsb, (12, 4 << 12), (12, 4 << 12))
+                bsz = 1 << bsb
+                ops = [('W', ncl * csx, bsz, 1), ('W', csx + bsz, bsz, 2), ('R', ncl * csx, bsz), ('W', ncl * csx + 4096 - bsz, bsz, 3) if bsz <= 4096 else ('F',),
+                       ('R', 0, csx), ('F',), ('R', (ncl - 1) * csx, csx)]
+                image = '\n'.join('image file ' + p for p in paths)
+            except ValueError:
+                image = None
         if i % 7 == 3:
             # header updates: an image whose header lists fewer L1 entries than the virtual size needs; a write far
             # into the disk makes the library extend the L1 table and rewrite the header
